@@ -119,7 +119,7 @@ CLAIMS = {
          "merges only below l_min when can_be_merged says so, an edge inside the band changes nothing, per-iteration progress. Unbounded in mesh "
          "size. Not decided: termination of the whole pass, edge swaps, collapse topology."),
    design='6 C11', technique='contract-based deductive verification: own VC generator over the clang AST (std::set<edge> model, quantified data invariants, reference-epoch tracking, reachability covers) + SMT (E-matching) + sympy; native ASan replay',
-   note=NOTE_COMMON + " DYNAMIC_MODEL_INDEX=0. Thorough tier adds the topology contract of split_edge (callee preconditions at every call site)."),
+   note=NOTE_COMMON + " DYNAMIC_MODEL_INDEX=0. The preconditions of add_face / delete_face at their call sites inside split_edge are assumed (views), not discharged."),
  'C13': dict(
    text=("Slice of the property decided by contracts on the real code - the accept/reject gate, not the reconstruction: "
          "simulation_initializer::triangulate_surface returns only a cell whose validation (initialize_cell_properties) returned normally in the "
